@@ -205,7 +205,7 @@ theorem C14_handlers_bytes {β : Type} (parse : β → Option Json) (p : Params)
 
 /-- non-vacuity: a request reaches the pool, a null request is an error, a request without transaction is ignored -/
 example : handleTransactionRequest Ex.params (.obj [("Transaction", Ex.rewardJson), ("TransactionBroadcasterTarget", .str "a:1")])
-    = .ok [Call.admit Ex.rewardTx "a:1"] := by rfl
+    = .ok [Call.toPool Ex.rewardTx "a:1"] := by rfl
 example : handleTransactionRequest Ex.params .null = .err := by rfl
 example : handleTransactionRequest Ex.params (.obj []) = .ok [] := by rfl
 example : (verifyNeighborAnswer Ex.params (fun _ => false) [Ex.hostBlock] [Ex.hostBlock] (.arr [.null])) = .err := by rfl
@@ -216,5 +216,128 @@ def C14_access_trusted_answer_full : Prop := ∀ j : Json, Res.NoPanic (readWall
 theorem C14_access_trusted_answer_counterexample : ¬ C14_access_trusted_answer_full := by
   intro h
   exact (h (.arr [.null]) : False)
+
+/-! ## C15 -/
+
+/-- **C15, round trip.**  `decode (encode v) = ok v` for every wire type and ALL field values within the types'
+ranges (`Canon`: uint16 / uint64 / int64 ranges, 32 hash bytes, the id is the hash of the pre-image, a transaction
+without inputs is the reward of exactly one output, otherwise it has an output; public key and signature are in
+CANONICAL form = accepted by the crypto decoder and equal to their own re-rendering — a decoded input always is,
+an upper-case spelling is not: it decodes to the lower-case value, "same fields" but not the same bytes) and
+`Fresh` (the derived reward fields are those of a newly allocated object).  nil and empty lists are different
+values and both survive: `null` ↦ nil ↦ `null`, `[]` ↦ empty ↦ `[]`. -/
+theorem C15_roundtrip (p : Params) :
+    (∀ o : Output, o.Canon → decPtr (fun _ j => Output.unmarshalJSON j) none (encOutput o) = .ok (some o)) ∧
+    (∀ i : InputInfo, i.Canon → InputInfo.unmarshalJSON (encInputInfo i) = .ok i) ∧
+    (∀ i : Input, Input.Canon p i → Input.unmarshalJSON p (encInput i) = .ok i) ∧
+    (∀ u : Utxo, u.Canon → Utxo.unmarshalJSON (encUtxo u) = .ok u) ∧
+    (∀ t : Transaction, Transaction.Canon p t → t.Fresh → Transaction.unmarshalJSON p none (encTransaction t) = .ok t) ∧
+    (∀ b : Block, Block.Canon p b → b.Fresh → Block.unmarshalJSON p (encBlock b) = .ok b) ∧
+    (∀ r : TransactionRequest, r.Canon p → r.Fresh → TransactionRequest.unmarshalJSON p (encRequest r) = .ok r) ∧
+    (∀ l : Option (List (Option Block)), (∀ x ∈ elems l, ∀ b, x = some b → Block.Canon p b ∧ b.Fresh) →
+      decodeBlocks p (encBlocks l) = .ok l) ∧
+    (∀ l : Option (List String), decodeTargets (encStrings l) = .ok l) ∧
+    (∀ h : Nat, h < 2 ^ 64 → decodeHeight (encNat h) = .ok h) ∧
+    (∀ a : String, decodeAddress (.str a) = .ok a) ∧
+    (∀ t : Int, IsInt64 t → decodeTimestamp (encInt t) = .ok t) := by
+  refine ⟨fun o h => ?_, rt_InputInfo, rt_Input p, rt_Utxo, rt_Transaction p, rt_Block p, rt_Request p,
+    rt_decodeBlocks p, fun l => ?_, fun h hh => decUint_encNat 64 0 h hh, fun a => rfl, fun t ht => decInt64_encInt 0 t ht⟩
+  · have := rt_elemOutput (some o) (fun o' e => by cases e; exact h)
+    simpa [elemOutput, encPtr] using this
+  · unfold decodeTargets
+    rw [rt_strings]
+    rfl
+
+/-- non-vacuity: the hypotheses are satisfiable (a reward with the maximal value; a block holding it) and the
+round trip does fail outside them (an index beyond uint16) -/
+example : Transaction.Canon Ex.params Ex.rewardTx ∧ Ex.rewardTx.Fresh := by
+  refine ⟨⟨?_, ?_, ?_, rfl, by decide, fun _ => ⟨_, rfl, rfl, rfl, rfl⟩⟩, by decide⟩
+  · intro x hx; simp [Ex.rewardTx, elems] at hx
+  · intro x hx
+    simp only [Ex.rewardTx, elems, Option.getD_some, List.mem_singleton] at hx
+    exact ⟨_, hx, by simp [Output.Canon]⟩
+  · unfold IsInt64; simp [Ex.rewardTx]
+example : InputInfo.unmarshalJSON (encInputInfo ⟨65536, ""⟩) = .err := by decide
+
+/-- **C15, stability.**  Decoding, re-encoding and decoding again gives the same value, and re-encoding that gives
+the same text: `encode` of a decoded value is a fixed point. -/
+theorem C15_stable (p : Params) (hp : p.Good) (j : Json) :
+    (∀ t, Transaction.unmarshalJSON p none j = .ok t →
+        Transaction.unmarshalJSON p none (encTransaction t) = .ok t) ∧
+    (∀ i, decPtr (fun _ j => Input.unmarshalJSON p j) none j = .ok (some i) → Input.unmarshalJSON p (encInput i) = .ok i) ∧
+    (∀ o, decPtr (fun _ j => Output.unmarshalJSON j) none j = .ok (some o) → Output.unmarshalJSON (encOutput o) = .ok o) ∧
+    (∀ u, decodeUtxoPtr j = .ok (some u) → Utxo.unmarshalJSON (encUtxo u) = .ok u) ∧
+    (∀ b, Block.unmarshalJSON p j = .ok b → b.Fresh → Block.unmarshalJSON p (encBlock b) = .ok b) ∧
+    (∀ r, TransactionRequest.unmarshalJSON p j = .ok r → r.Fresh → TransactionRequest.unmarshalJSON p (encRequest r) = .ok r) ∧
+    (∀ l, decodeBlocks p j = .ok l → (∀ b, some b ∈ elems l → b.Fresh) → decodeBlocks p (encBlocks l) = .ok l) := by
+  refine ⟨fun t h => ?_, fun i h => ?_, fun o h => ?_, fun u h => ?_, fun b h hf => ?_, fun r h hf => ?_, fun l h hf => ?_⟩
+  · exact rt_Transaction p t ((sat_Transaction_unmarshalJSON p hp none j).of_ok h) (fresh_Transaction_unmarshalJSON p j t h)
+  · exact rt_Input p i (((C14_decode_total p hp j).2.2.1).of_ok h i rfl)
+  · exact rt_Output o (((C14_decode_total p hp j).1).of_ok h o rfl)
+  · exact rt_Utxo u ((sat_decodeUtxoPtr j).of_ok h u rfl)
+  · exact rt_Block p b ((sat_Block_unmarshalJSON p hp j).of_ok h) hf
+  · exact rt_Request p r ((sat_Request_unmarshalJSON p hp j).of_ok h) hf
+  · exact rt_decodeBlocks p l (fun x hx b hb => ⟨(sat_decodeBlocks p hp j).of_ok h x hx b hb, hf b (hb ▸ hx)⟩)
+
+/-- re-encoding a decoded value is byte-stable: encode ∘ decode ∘ encode = encode -/
+theorem C15_stable_encode (p : Params) (t t' : Transaction) (hc : Transaction.Canon p t) (hf : t.Fresh)
+    (h : Transaction.unmarshalJSON p none (encTransaction t) = .ok t') :
+    render (encTransaction t') = render (encTransaction t) := by
+  rw [rt_Transaction p t hc hf] at h
+  cases h; rfl
+
+/-- Without `Fresh` the statement for blocks (and requests) is FALSE of the code: see the counterexample. -/
+def C15_stable_full : Prop :=
+  ∀ (p : Params), p.Good → ∀ (j : Json) (b : Block), Block.unmarshalJSON p j = .ok b →
+    Block.unmarshalJSON p (encBlock b) = .ok b
+
+theorem C15_stable_partial (p : Params) (hp : p.Good) (j : Json) (b : Block)
+    (h : Block.unmarshalJSON p j = .ok b) (hf : b.Fresh) : Block.unmarshalJSON p (encBlock b) = .ok b :=
+  (C15_stable p hp j).2.2.2.2.1 b h hf
+
+/-- A block whose "transactions" key occurs twice — `[reward]`, then `[spend]` — decodes to a spend that still
+carries `hasReward = true` (the `*Transaction` of the first list is re-used, `UnmarshalJSON` never clears the reward
+fields); its re-encoding decodes to the spend with `hasReward = false`.  Replayed on the real decoder and, end to
+end, on the real `Blockchain.Update` by `ruwire --mode witness` (stale-reward-fields, stale-reward-adopted). -/
+theorem C15_stable_counterexample : ¬ C15_stable_full := by
+  intro h
+  have h1 : Block.unmarshalJSON Ex.params Ex.dupBlockJson = .ok (Ex.blockWith true) := by decide
+  have h2 := h Ex.params ⟨fun _ _ => rfl, fun _ _ => rfl, fun _ _ => rfl, fun _ _ => rfl⟩ _ _ h1
+  have h3 : Block.unmarshalJSON Ex.params (encBlock (Ex.blockWith true)) = .ok (Ex.blockWith false) := by decide
+  rw [h3] at h2
+  exact absurd h2 (by decide)
+
+/-- the same through a transaction request -/
+example : TransactionRequest.unmarshalJSON Ex.params Ex.dupRequestJson = .ok ⟨some (Ex.spendTx true), ""⟩ := by decide
+
+/-- two more faithful oddities of `encoding/json` the model reproduces (both replayed on the real decoder): elements
+that a re-filled slice's backing array still holds are kept by `null`, and a `[32]byte` skips surplus elements unread -/
+theorem C15_stale_elements_example :
+    (Block.unmarshalJSON Ex.params Ex.staleStringsJson).isOk = true ∧
+    ∀ b, Block.unmarshalJSON Ex.params Ex.staleStringsJson = .ok b → b.added = some ["a", "b"] := by
+  refine ⟨by decide, fun b h => ?_⟩
+  have : Block.unmarshalJSON Ex.params Ex.staleStringsJson = .ok ⟨zeroHash, some ["a", "b"], none, 0, none⟩ := by decide
+  rw [this] at h
+  cases h; rfl
+
+theorem C15_long_hash_example :
+    ∀ b, Block.unmarshalJSON Ex.params Ex.longHashJson = .ok b → b.previousHash = (List.range 32).map (· + 1) := by
+  intro b h
+  have : Block.unmarshalJSON Ex.params Ex.longHashJson = .ok ⟨(List.range 32).map (· + 1), none, none, 0, none⟩ := by decide
+  rw [this] at h
+  cases h; rfl
+
+/-- **C15, the id is checked.**  A decoded transaction's id is the hash of the rendering of its inputs, outputs and
+timestamp; a transaction with any other id is refused (whatever object it is decoded into). -/
+theorem C15_id_checked (p : Params) (hp : p.Good) :
+    (∀ old j t, Transaction.unmarshalJSON p old j = .ok t → t.id = generateId p t.inputs t.outputs t.timestamp) ∧
+    (∀ (t : Transaction) old, AllSome (Input.Canon p) (elems t.inputs) → AllSome Output.Canon (elems t.outputs) →
+      IsInt64 t.timestamp → t.id ≠ generateId p t.inputs t.outputs t.timestamp →
+      Transaction.unmarshalJSON p old (encTransaction t) = .err) :=
+  ⟨fun old j _ h => ((sat_Transaction_unmarshalJSON p hp old j).of_ok h).2.2.2.1,
+   fun t old hI hO hT hid => id_mismatch_refused p t hI hO hT hid old⟩
+
+example : Transaction.unmarshalJSON Ex.params none Ex.wrongIdJson = .err := by decide
+example : Transaction.unmarshalJSON Ex.params none Ex.rewardJson = .ok Ex.rewardTx := by decide
 
 end Codec
